@@ -289,6 +289,22 @@ private:
         return fmt::format("{}_entry", group_name);
     }
 
+    static bool is_group_base_member_name(const std::string& name)
+    {
+        // group class named like a member inherited from
+        // `flat_group_base`/`nested_group_base` hides that member
+        static const std::unordered_set<std::string> names{
+            "value_type",     "reference",       "sbe_size_type",
+            "size_type",      "difference_type", "iterator",
+            "cursor_range_t", "cursor_iterator", "sbe_size",
+            "size",           "resize",          "clear",
+            "empty",          "max_size",        "begin",
+            "end",            "front",           "back",
+            "cursor_range",   "cursor_subrange", "cursor_begin",
+            "cursor_end"};
+        return names.count(name) != 0;
+    }
+
     struct mangled_group_info
     {
         std::string group_name;
@@ -337,7 +353,8 @@ private:
             const auto entry_name = make_group_entry_name(g.name);
 
             // should not clash with another mangled message-related name
-            if(mangled_message_names.count(g.name)
+            if(is_group_base_member_name(g.name)
+               || mangled_message_names.count(g.name)
                // at the moment mangled message name cannot match entry name
                // because mangled names end with `_N` while entry names end with
                // `_entry` but I prefer to keep this check to show the intent
